@@ -1,7 +1,184 @@
 import ComposeVerif.Ops.Common
-/-! line-protocol ops for C17 (filled in by the property's owner) -/
+import ComposeVerif.Model.Name
+import ComposeVerif.Spec.Name
+/-! line-protocol ops for C17: `c17norm`, `c17normRange`, `c17load` -/
+open Lean
 namespace CV.Ops.C17
+open CV CV.Name
 
-def handlers : List (String × Handler) := []
+def getArr (j : Json) (k : String) : List Json :=
+  match j.getObjVal? k with
+  | .ok (.arr a) => a.toList
+  | _ => []
+
+def jStr (j : Json) : Str := match j with | .str s => s.toList | _ => []
+
+def pairOf (j : Json) : Str × Str :=
+  match j with
+  | .arr a => (jStr (a.getD 0 .null), jStr (a.getD 1 .null))
+  | _ => ([], [])
+
+def envFileOf (j : Json) : EnvFile :=
+  if getBool j "dir" then .dir else .file ((getArr j "lines").map pairOf)
+
+def docOf (j : Json) : Option Str :=
+  match j.getObjVal? "name" with
+  | .ok (.str s) => some s.toList
+  | _ => none
+
+def optOf (j : Json) : Option Opt :=
+  match getStr j "op" with
+  | "name" => some (.withName (getStr j "v").toList)
+  | "env" => some (.withEnv ((getStrList j "l").map String.toList))
+  | "osenv" => some .withOsEnv
+  | "envfiles" => some (.withEnvFiles ((getStrList j "l").map String.toList))
+  | "dotenv" => some .withDotEnv
+  | "workdir" => some (.withWorkDir (getBool j "alt"))
+  | _ => none
+
+def worldOf (a : Json) : World where
+  dir := (getStr a "dir").toList
+  os := (getStrList a "os").map String.toList
+  files := (getArr a "files").map fun f => match f with
+    | .arr docs => docs.toList.map docOf
+    | _ => []
+  envFiles := (getArr a "envfiles").map fun f => ((getStr f "n").toList, envFileOf f)
+  dotEnv := match a.getObjVal? "dotenv" with
+    | .ok (.obj o) => some (envFileOf (.obj o))
+    | _ => none
+  probe := (getStr a "probe").toList
+  altDir := (getStr a "altdir").toList
+  altDotEnv := match a.getObjVal? "altdotenv" with
+    | .ok (.obj o) => some (envFileOf (.obj o))
+    | _ => none
+
+/-- first binding of each key (the visible one), as a JSON object -/
+def dedupe : Env → List Str → Env
+  | [], _ => []
+  | (k, v) :: e, seen => if seen.contains k then dedupe e seen else (k, v) :: dedupe e (k :: seen)
+
+def envJson (e : Env) : Json :=
+  Json.mkObj ((dedupe e []).map fun (k, v) => (String.ofList k, str v))
+
+def errStr : Err → String
+  | .invalidName => "invalidName" | .emptyName => "emptyName" | .envNotFound => "envNotFound"
+  | .envIsDir => "envIsDir" | .dotenvParse => "dotenvParse" | .interp => "interp"
+  | .disableParse => "disableParse" | .panic => "panic"
+
+def modelJson (w : World) (opts : List Opt) : Json :=
+  match runOpts w opts {} with
+  | .error e => Json.mkObj [("err", errStr e), ("at", "options")]
+  | .ok o =>
+    match load w o with
+    | .error e => Json.mkObj [("err", errStr e), ("at", "load")]
+    | .ok r => Json.mkObj [("ok", Json.mkObj [("name", str r.name), ("env", envJson r.env), ("probe", str r.probe)])]
+
+open Spec in
+def decisionJson : Decision → Json
+  | .name n => Json.mkObj [("name", str n)]
+  | .rejected => "rejected"
+  | .failed => "failed"
+  | .noName => "noName"
+
+def isUnder : Opt → Bool
+  | .withOsEnv => true | .withDotEnv => true | _ => false
+
+/-- the order the API documents: explicit and OS variables first, env files selected, then `WithDotEnv` last of
+    the environment options; each of `WithOsEnv` / `WithEnvFiles` / `WithDotEnv` at most once -/
+def documented (opts : List Opt) : Bool :=
+  let envOpts := opts.filter fun | .withName _ => false | .withWorkDir _ => false | _ => true
+  -- the working directory is chosen before the env files are selected
+  let workdirEarly := (opts.dropWhile fun | .withEnvFiles _ => false | _ => true).all
+    fun | .withWorkDir _ => false | _ => true
+  let nOs := (envOpts.filter (· == .withOsEnv)).length
+  let nDot := (envOpts.filter (· == .withDotEnv)).length
+  let nFiles := (envOpts.filter fun | .withEnvFiles _ => true | _ => false).length
+  nOs ≤ 1 && nDot ≤ 1 && nFiles ≤ 1 && workdirEarly &&
+    (nDot == 0 || envOpts.getLast? == some .withDotEnv)
+
+/-- spec side of the oracle, computed from the options *syntactically* (no option state machine) -/
+def specJson (w : World) (opts : List Opt) : Json :=
+  -- the explicitly requested name: the last WithName
+  let names := opts.filterMap fun | .withName n => some n | _ => none
+  let badName := names.any fun n => n ≠ [] && !validName n
+  let explicit := names.getLast?.getD []
+  let expl := Spec.explicitLayer opts
+  let alt := opts.contains (.withWorkDir true)
+  let pdir := if alt then w.altDir else w.dir
+  let hasOs := opts.contains .withOsEnv
+  let hasDot := opts.contains .withDotEnv
+  let osL : Env := if hasOs then asEqualsMap w.os else []
+  -- env files selected by the last WithEnvFiles
+  let sel := (opts.filterMap fun | .withEnvFiles l => some l | _ => none).getLast?
+  let disabled : Option Bool := match (asEqualsMap w.os).get disableKey with
+    | some v => (parseBool v)
+    | none => some false
+  let fileRefs : List FileRef := match sel with
+    | none => []
+    | some [] => (match disabled, (if alt then w.altDotEnv else w.dotEnv) with
+        | some false, some (.file _) => [if alt then .defaultAlt else .default]
+        | _, _ => [])
+    | some l => l.map .named
+  let filesOk := hasDot && fileRefs.all fun r => match lookupFile w r with | some (.file _) => true | _ => false
+  let contents := fileRefs.filterMap fun r => match lookupFile w r with | some (.file ls) => some ls | _ => none
+  let above := expl ++ osL
+  let dot : Except Unit (List Env) := if hasDot then Spec.dotenvLayers above contents [] else .ok []
+  let doc := documented opts && (!hasDot || filesOk) && !badName &&
+    (sel != some [] || disabled.isSome)
+  match dot with
+  | .error _ => Json.mkObj [("documented", Json.bool false), ("badName", Json.bool badName), ("layers", Json.arr #[envJson expl])]
+  | .ok dl =>
+    let layers := [expl, osL] ++ dl
+    let projEnv : Env := layers.flatten
+    let src : Spec.Sources := {
+      explicit := explicit, fromEnv := projEnv.get cpn,
+      fromFiles := (match Template.subst projEnv.get (Spec.selectedName w.files) with | .ok s => .ok s | _ => .error ()),
+      dirBase := pdir }
+    let dec := Spec.decide src
+    let fin : List (String × Json) := match dec with
+      | .name n =>
+        let env : Env := (cpn, n) :: projEnv
+        let ok := match interpAll env (allNames w) with | .ok _ => true | _ => false
+        (match ok, Template.subst env.get w.probe with
+          | true, .ok p => [("pipelineOk", Json.bool true), ("probe", str p), ("finalEnv", envJson env)]
+          | _, _ => [("pipelineOk", Json.bool false)])
+      | _ => []
+    Json.mkObj ([
+      ("documented", Json.bool doc),
+      ("badName", Json.bool badName),
+      ("decision", decisionJson dec),
+      ("candidates", Json.mkObj [
+        ("explicit", str explicit),
+        ("env", str ((projEnv.get cpn).getD [])),
+        ("file", match src.fromFiles with | .ok s => str (normalize s) | _ => Json.null),
+        ("dir", str (normalize pdir))]),
+      ("layers", Json.arr (layers.map envJson).toArray),
+      ("env", envJson projEnv)] ++ fin)
+
+def c17load : Handler := fun args =>
+  let w := worldOf args
+  let opts := (getArr args "opts").filterMap optOf
+  Json.mkObj [("model", modelJson w opts), ("spec", specJson w opts)]
+
+def c17norm : Handler := fun args =>
+  let s := (getStr args "s").toList
+  Json.mkObj [("out", str (normalize s)), ("valid", Json.bool (validName s))]
+
+/-- every code point of `[from, to)` whose one-rune string has a non-empty normalisation -/
+def c17normRange : Handler := fun args =>
+  let lo := getNat args "from"
+  let hi := getNat args "to"
+  let cps := (List.range (hi - lo)).map (· + lo)
+  let hits := cps.filterMap fun n =>
+    if h : n.isValidChar then
+      let c : Char := Char.ofNatAux n h
+      match normalize [c] with
+      | [] => none
+      | r => some (Json.arr #[Json.num (n : Nat), str r])
+    else none
+  Json.mkObj [("hits", Json.arr hits.toArray)]
+
+def handlers : List (String × Handler) :=
+  [("c17load", c17load), ("c17norm", c17norm), ("c17normRange", c17normRange)]
 
 end CV.Ops.C17
